@@ -83,9 +83,20 @@ def explore_pair(progA, progB, d, N, start, *, partial=False, budget=None, relea
     out = dict(leaves=0, failures=[], kinds={}, samples=[], depthA=[], depthB=[])
 
     def body(ex):
-        a, _ = step_outcome(ex, d, start, partial)
+        # a generator whose next() exceeds its step budget "spins"; that is an outcome to compare, not an engine matter
+        try:
+            a, _ = step_outcome(ex, d, start, partial)
+        except Violation as v:
+            if v.kind != 'steps':
+                raise
+            a = (('spin',), '-', '-', (), ())
         with ex.using(progB):
-            b, _ = step_outcome(ex, d, start, partial)
+            try:
+                b, _ = step_outcome(ex, d, start, partial)
+            except Violation as v:
+                if v.kind != 'steps':
+                    raise
+                b = (('spin',), '-', '-', (), ())
         return a, b
 
     def on_leaf(ex, leaf):
